@@ -52,7 +52,10 @@ Fixpoint nwf4 (n : node) : Prop :=
   match n with
   | NNil => True
   | NRaw t => tnodup t = true
-  | NDoc _ obj =>
+  | NDoc ks obj =>
+      (* a live map: the key list of a legacy partialDoc is always [] (a non-empty key list tags the
+         two null-like nodes raw_null4 / nil_doc4 of ImplV4, which merge.go never makes) *)
+      ks = [] /\
       NoDup (map fst obj) /\
       (fix all (m : list (bytes * node)) : Prop :=
          match m with [] => True | kv :: r => nwf4 (snd kv) /\ all r end) obj
@@ -62,9 +65,9 @@ Fixpoint nwf4 (n : node) : Prop :=
 
 Definition nodes_wf4 (obj : list (bytes * node)) : Prop := Forall (fun kv => nwf4 (snd kv)) obj.
 
-Lemma nwf4_doc keys obj : nwf4 (NDoc keys obj) <-> NoDup (map fst obj) /\ nodes_wf4 obj.
+Lemma nwf4_doc keys obj : nwf4 (NDoc keys obj) <-> keys = [] /\ NoDup (map fst obj) /\ nodes_wf4 obj.
 Proof.
-  cbn [nwf4]. unfold nodes_wf4. split; intros [H1 H2]; (split; [exact H1|]); clear H1.
+  cbn [nwf4]. unfold nodes_wf4. split; intros [H0 [H1 H2]]; (split; [exact H0|]); (split; [exact H1|]); clear H0 H1.
   - induction obj as [|kv obj IH]; constructor; destruct H2; auto.
   - induction obj as [|kv obj IH]; [exact I|]. inversion H2 as [|? ? Ha Hb]; subst. split; [exact Ha | apply IH; exact Hb].
 Qed.
@@ -98,7 +101,7 @@ Proof.
   induction n using node_rect'; intro W.
   - reflexivity.
   - exact W.
-  - apply nwf4_doc in W as [N F]. rewrite aval4_doc. apply onodup_obj. split.
+  - apply nwf4_doc in W as [_ [N F]]. rewrite aval4_doc. apply onodup_obj. split.
     + rewrite mem4_keys. exact N.
     + unfold mem4. rewrite Forall_map. unfold nodes_wf4 in F. rewrite Forall_forall in *.
       intros kv Hin. simpl. apply H; auto.
@@ -168,7 +171,7 @@ Proof.
   destruct (prune4_go_spec ms [] N (Forall_nil _) H F) as [P1 [P2 P3]].
   split.
   - rewrite aval4_doc, P1, D, merge_patch_obj. reflexivity.
-  - apply nwf4_doc. split; auto.
+  - apply nwf4_doc. split; [reflexivity | split; auto].
 Qed.
 
 (* ---- merge / mergeDocs ---- *)
@@ -287,7 +290,7 @@ Lemma into_doc4_spec cur : nwf4 cur ->
 Proof.
   intro W. destruct cur as [|t|keys obj|ns]; simpl into_doc4; try reflexivity.
   - destruct t; try reflexivity. apply nwf4_raw in W. exact (parsed_obj4 ms W).
-  - apply nwf4_doc in W as [W1 W2]. split; [apply aval4_doc | split; auto].
+  - apply nwf4_doc in W as [_ [W1 W2]]. split; [apply aval4_doc | split; auto].
 Qed.
 
 (* C19 (MergePatch): the legacy merge(cur, patch) computes RFC 7396's MergePatch on the values, at
@@ -310,7 +313,7 @@ Proof.
         rewrite Forall_forall in Fk. split; [apply (Fk _ Hin)|].
         intros c Wc'. apply IH; auto; [|apply (Fk _ Hin)].
         pose proof (tsize_member_lt ms _ Hin). simpl in *. lia.
-      * split; [|apply nwf4_doc; auto].
+      * split; [|apply nwf4_doc; split; [reflexivity | auto]].
         rewrite aval4_doc, M1, Ec, D, merge_patch_obj. simpl members_of. f_equal. f_equal.
         unfold den_members. rewrite map_map. reflexivity.
     + assert (NO : forall ms, p <> TObj ms).
@@ -432,7 +435,7 @@ Proof.
     + intros k v c Hin G O NNc. apply in_map_iff in Hin as [[k0 v0] [E Hin]]. inversion E; subst.
       rewrite Ec in Cp. eapply compatible_members; eauto.
       unfold den_members. apply in_map_iff. eexists; split; [|exact Hin]. reflexivity.
-    + split; [|split; [apply nwf4_doc; auto | apply nclean_doc; auto]].
+    + split; [|split; [apply nwf4_doc; split; [reflexivity | auto] | apply nclean_doc; auto]].
       rewrite aval4_doc, M1, Ec, D, mm_obj. f_equal. f_equal.
       unfold den_members. rewrite map_map. reflexivity.
   - assert (NO : forall ms, p <> TObj ms).
@@ -519,8 +522,8 @@ Qed.
 Definition sort4 {A} (l : list (bytes * A)) : list (bytes * A) :=
   fold_left (fun acc kv => insert_sorted kv acc) l [].
 
-Lemma render4_doc ks obj :
-  render4 (NDoc ks obj) =
+Lemma render4_doc obj :
+  render4 (NDoc [] obj) =
   TObj (map (fun kv => (quote true (fst kv), snd kv)) (sort4 (map (fun kv => (fst kv, render4 (snd kv))) obj))).
 Proof. reflexivity. Qed.
 
@@ -652,7 +655,7 @@ Proof.
   induction n using node_rect'; intros W K.
   - split; reflexivity.
   - cbn [render4 aval4]. split; [exact W | apply jeq_refl; exact W].
-  - apply nwf4_doc in W as [N W]. apply nku_doc in K.
+  - apply nwf4_doc in W as [-> [N W]]. apply nku_doc in K.
     unfold nodes_wf4, nodes_ku in *. rewrite Forall_forall in H, W, K.
     rewrite render4_doc, aval4_doc.
     set (R := map (fun kv => (fst kv, render4 (snd kv))) obj).
